@@ -179,7 +179,7 @@ fn mutate_reply(mut msg: Reply, faults: Vec<Fault>, names: &mut Vec<&'static str
                     applied = true;
                 }
             }
-            Fault::WireReplace(_) => {}
+            Fault::WireReplace(_) | Fault::EnvNoTx => {}
         }
         if applied {
             names.push(kind);
@@ -260,9 +260,15 @@ impl<C: CustomMsg, Q: CustomQuery> Contract<C, Q> for FaultLink<C, Q> {
         if let Some(e) = out_of_gas() {
             return Err(e);
         }
-        let ctx = ctx_echo(deps.as_ref(), &env, None);
         let (op, ord, world, faults) = take_faults();
         let mut names = vec![];
+        let mut env = env;
+        if faults.iter().any(|f| matches!(f, Fault::EnvNoTx)) && env.transaction.is_some() {
+            env.transaction = None;
+            names.push("f16_env_no_tx");
+            fired("f16_env_no_tx");
+        }
+        let ctx = ctx_echo(deps.as_ref(), &env, None);
         let msg = mutate_reply(msg, faults, &mut names);
         bb::push(Ev::Deliver {
             world,
